@@ -20,6 +20,8 @@ from kawin.precipitation.PrecipitationParameters import PrecipitationData, Const
 from harness import c07 as _c07
 from harness import c01 as _c01
 from harness import c08 as _c08
+from harness import c02 as _c02
+from harness import c15 as _c15
 
 
 class MultiStub:
@@ -53,6 +55,8 @@ def faults_multi(ctx, nph=2, ncls=2, nel=2, have_growth=True, no_tables=False):
     if have_growth:
         m.growth = [g for g in prev_growth]
     m.pData.xEqAlpha = ctx.reals("rec_xEqA", (1, nph, nel), (0.01, 0.2)); m.pData.xEqBeta = ctx.reals("rec_xEqB", (1, nph, nel), (0.2, 0.8))
+    old_tabs = None if no_tables else [([[m.PSDXalpha[p][i, e] * 1 for e in range(nel)] for i in range(ncls + 1)],
+                                           [[m.PSDXbeta[p][i, e] * 1 for e in range(nel)] for i in range(ncls + 1)]) for p in range(nph)]
     Y = m.pData.copySlice(0)
     Y.drivingForce = ctx.reals("dG", (1, nph), (-1.0, 1.0)); Y.precipitateDensity = ctx.reals("dens", (1, nph), (0.0, 2.0))
     Y.temperature = ctx.reals("T", 1, (500.0, 900.0))
@@ -91,6 +95,10 @@ def faults_multi(ctx, nph=2, ncls=2, nel=2, have_growth=True, no_tables=False):
         if failed and not bool(dGs[p] < 0):
             ctx.prove("backend fault with non-negative driving force: previous growth rate is reused",
                       ctx.all([ctx.eq(growth[p][i], prev_growth[p][i]) for i in range(ncls + 1)]))
+            if old_tabs is not None and np.shape(m.PSDXbeta[p]) == (ncls + 1, nel):
+                ctx.prove("backend fault with non-negative driving force: the interfacial composition tables keep their last valid values",
+                          ctx.all([ctx.eq(m.PSDXalpha[p][i, e], old_tabs[p][0][i][e]) for i in range(ncls + 1) for e in range(nel)] +
+                                  [ctx.eq(m.PSDXbeta[p][i, e], old_tabs[p][1][i][e]) for i in range(ncls + 1) for e in range(nel)]))
             ctx.prove("backend fault with non-negative driving force: previous equilibrium compositions are kept",
                       ctx.all([ctx.eq(Y2.xEqAlpha[0, p, e], m.pData.xEqAlpha[0, p, e]) for e in range(nel)] + [ctx.eq(Y2.xEqBeta[0, p, e], m.pData.xEqBeta[0, p, e]) for e in range(nel)]))
         if failed and bool(dGs[p] < 0):
@@ -410,6 +418,12 @@ HARNESSES = [
             opts={"ob_timeout": 30.0}, budget={"quick": 150.0, "thorough": 900.0},
             params={"quick": [{"n": 2, "orig": 4, "minb": 2, "maxb": 2, "adaptive": True, "diss": False}],
                     "thorough": [{"n": 3, "orig": 4, "minb": 2, "maxb": 3, "adaptive": True, "diss": True}]}),
+    Harness("C03.phases_own_grids", _c02.pbm_per_phase, functions=[PrecipitateModel._resetArrays, PrecipitateModel.setPBMParameters, PBM.UpdatePBMEuler, PBM.addSizeClasses],
+            assumptions=["as C02.pbm_per_phase: every phase has its own size-class object (default grids and setPBMParameters), so that one phase extending its grid cannot leave another with arrays of the wrong length"],
+            params={"quick": [{"nph": 2, "default": True}], "thorough": [{"nph": 3, "default": True}, {"nph": 3, "how": "all"}]}),
+    Harness("C03.kinetic_factor_at_ratio_1", _c15.unit, functions=[],
+            assumptions=["as C15.unit: shape factors are defined (equal to 1) at aspect ratio 1 for the non-spherical shapes: a radius-dependent aspect ratio that is 1 for small particles must not produce NaN growth rates"],
+            params={"quick": [{"shape": s, "fn": "kineticFactor"} for s in ("needle", "plate")], "thorough": [{"shape": s, "fn": f} for s in ("needle", "plate") for f in ("kineticFactor", "thermoFactor", "eqRadiusFactor")]}),
     Harness("C03.composition_clamp", _c01.mass_balance, functions=[PrecipitateModel._calcMassBalance],
             assumptions=["as C01.mass_balance: the recorded matrix composition is the balanced one, or the minimum composition when the balance is negative"],
             params={"quick": [{"nph": 1, "nel": 2, "ncls": 2, "infinite": True}], "thorough": [{"nph": 2, "nel": 2, "ncls": 2, "infinite": True}]}),
